@@ -1,5 +1,7 @@
 import Toq.Driver.Util
+import Toq.Driver.QJson
 import Toq.Model.ChannelOps
+import Toq.Model.ChannelOpsExtra
 /-! Driver handlers for C04: `apply_channel`, `kraus_to_choi`, `partial_channel`,
 `natural_representation`, `channel_dim` mirror models on Gaussian-integer matrices.
 
@@ -103,22 +105,23 @@ def hKrausToChoi : Handler := fun j => do
     | none => return reject "BadList"
     | some e => return guardedApply rho e
 
-/-- `dim` normalisation of `partial_channel`: `None`, 1-d list (both rows), 2-row list -/
-def parsePartialDim (j : Json) (rho : Mat GI) : Except String (Option (List Nat × List Nat)) := do
-  if isNull j "dim" then
-    let d := defaultDim rho
-    if Nat.sqrt rho.r * Nat.sqrt rho.r != rho.r || Nat.sqrt rho.c * Nat.sqrt rho.c != rho.c then return none
-    return some (d, d)
+/-- the `dim` argument of `partial_channel` as sent by the harness: `None`, 1-d list, 2-row list -/
+def parsePDimArg (j : Json) : Except String PDimArg := do
+  if isNull j "dim" then return .none
   let v ← j.getObjVal? "dim"
   let a ← v.getArr?
   match (a[0]? : Option Json) with
   | some (Json.arr _) =>
     let r ← asNatList a[0]!
     let c ← asNatList a[1]!
-    return some (r, c)
+    return .two r c
   | _ =>
     let d ← asNatList v
-    return some (d, d)
+    return .one d
+
+/-- `dim` normalisation of `partial_channel` (`Toq.ChannelOps.partialDimNorm`) -/
+def parsePartialDim (j : Json) (rho : Mat GI) : Except String (Option (List Nat × List Nat)) := do
+  return partialDimNorm rho (← parsePDimArg j)
 
 def hPartialKraus : Handler := fun j => do
   let rho ← parseMat (← j.getObjVal? "rho")
@@ -176,9 +179,83 @@ def hChannelDim : Handler := fun j => do
     | .error e => return reject e.name
     | .ok c => return chanDimJson c
 
+/-! ### `choi_to_kraus`: exact rationals (`ℚ[i]`); matrices `{"r","c","re":[q…],"im":[q…]}` with `q` an integer
+or `[num, den]` -/
+
+def asRatArray (v : Json) : Except String (Array Rat) := do
+  let a ← v.getArr?
+  a.mapM asRat
+
+def parseMatQ (v : Json) : Except String (Mat QI) := do
+  let r ← getNat v "r"
+  let c ← getNat v "c"
+  let re ← asRatArray (← v.getObjVal? "re")
+  let im ← asRatArray (← v.getObjVal? "im")
+  if re.size != r * c || im.size != r * c then throw "matrix data size"
+  return ⟨r, c, fun i j => ⟨re[i * c + j]!, im[i * c + j]!⟩⟩
+
+def matJsonQ (m : Mat QI) : Json :=
+  let a := arrayOfMat m.r m.c m.e
+  Json.mkObj [("r", Json.num m.r), ("c", Json.num m.c), ("re", Json.arr (a.map (fun x => ratJson x.re))),
+    ("im", Json.arr (a.map (fun x => ratJson x.im)))]
+
+def krausJsonQ : KrausArg QI → Json
+  | .flat l => Json.mkObj [("tag", Json.str "flat"), ("ops", Json.arr (l.map matJsonQ).toArray)]
+  | .nested ll => Json.mkObj [("tag", Json.str "nested"),
+      ("ops", Json.arr (ll.map (fun l => Json.arr (l.map matJsonQ).toArray)).toArray)]
+
+/-- the float functions of `choi_to_kraus` on exact (real) rationals: `abs`, `np.sign`, comparisons and unary minus
+    exactly; `np.sqrt` as the finite table of correctly rounded doubles sent by the harness -/
+def qiOps (table : List (Rat × Rat)) : RealOps QI :=
+  { sqrt := fun x => ⟨(table.lookup x.re).getD 0, 0⟩
+    abs := fun x => ⟨if x.re < 0 then -x.re else x.re, 0⟩
+    sign := fun x => ⟨if x.re < 0 then -1 else if 0 < x.re then 1 else 0, 0⟩
+    neg := fun x => ⟨-x.re, -x.im⟩
+    gt := fun x y => decide (y.re < x.re)
+    ge := fun x y => decide (y.re ≤ x.re) }
+
+def emptyMatQ : Mat QI := ⟨0, 0, fun _ _ => 0⟩
+
+def freezeQ (m : Mat QI) : Mat QI :=
+  let a := arrayOfMat m.r m.c m.e
+  ⟨m.r, m.c, fun i j => a[i * m.c + j]!⟩
+
+def hChoiToKraus : Handler := fun j => do
+  let J ← parseMatQ (← j.getObjVal? "J")
+  let tol ← getRat j "tol"
+  let atol ← getRat j "atol"
+  let dim ← parseDimArg j "dim"
+  let tab ← (← (← j.getObjVal? "sqrt").getArr?).toList.mapM (fun p => do
+    let a ← p.getArr?
+    if a.size != 2 then throw "sqrt table: pairs expected"
+    return ((← asRat a[0]!), (← asRat a[1]!)))
+  let eig : Eigh QI ←
+    if isNull j "eigh" then pure ⟨[], emptyMatQ⟩
+    else do
+      let e ← j.getObjVal? "eigh"
+      let ev ← getRatList e "evals"
+      let V ← parseMatQ (← e.getObjVal? "V")
+      pure ⟨ev.map QI.ofRat, freezeQ V⟩
+  let svd : Svd QI ←
+    if isNull j "svd" then pure ⟨emptyMatQ, [], emptyMatQ⟩
+    else do
+      let e ← j.getObjVal? "svd"
+      let S ← getRatList e "S"
+      let U ← parseMatQ (← e.getObjVal? "U")
+      let Vh ← parseMatQ (← e.getObjVal? "Vh")
+      pure ⟨freezeQ U, S.map QI.ofRat, freezeQ Vh⟩
+  if !(notVectorQ J) then return reject "VectorShaped"
+  match choiToKraus (qiOps tab) (freezeQ J) (QI.ofRat tol) (QI.ofRat atol) dim eig svd with
+  | .error e => return reject e.name
+  | .ok phi =>
+    return Json.mkObj [("out", krausJsonQ phi), ("hermitian", Json.bool (isHermitianExact J)),
+      ("psd", Json.bool (isPsdFrom (qiOps tab) (isHermitianExact J) (QI.ofRat atol) eig.evals))]
+where
+  notVectorQ (m : Mat QI) : Bool := m.r ≥ 1 && m.c ≥ 1
+
 def handlers : List (String × Handler) :=
   [("c04_apply_kraus", hApplyKraus), ("c04_apply_choi", hApplyChoi), ("c04_kraus_to_choi", hKrausToChoi),
    ("c04_partial_kraus", hPartialKraus), ("c04_partial_choi", hPartialChoi),
-   ("c04_natural_rep", hNaturalRep), ("c04_channel_dim", hChannelDim)]
+   ("c04_natural_rep", hNaturalRep), ("c04_channel_dim", hChannelDim), ("c04_choi_to_kraus", hChoiToKraus)]
 
 end Toq.Driver.C04
